@@ -138,20 +138,20 @@ theorem toNfa_wf (s : NState) (hs : s.Closed) : s.toNfa.WF := by
   rw [toNfa_size]; exact hlt
 
 theorem nreach_path (s : NState) (hs : s.Closed) {w : List Nat} {m : Nat} (h : NReach s.toNfa w m) :
-    Path s.edges 0 w m := by
+    NPath s.edges 0 w m := by
   induction h with
   | start => exact .nil 0
   | eps _ hstep ih =>
     obtain ⟨ed, hmem, hsrc, hterm, hto⟩ := (mem_toNfa s hs _ _ _).1 hstep
-    have := ih.trans (hsrc ▸ Path.single ed hmem hto)
+    have := ih.trans (hsrc ▸ NPath.single ed hmem hto)
     simpa [hterm] using this
   | letter _ he ih =>
     obtain ⟨ed, hmem, hsrc, hterm, hto⟩ := (mem_toNfa s hs _ _ _).1 he
-    have := ih.trans (hsrc ▸ Path.single ed hmem hto)
+    have := ih.trans (hsrc ▸ NPath.single ed hmem hto)
     simpa [hterm] using this
 
 theorem path_nreach (s : NState) (hs : s.Closed) {u w : List Nat} {n k : Nat} (hr : NReach s.toNfa u n)
-    (p : Path s.edges n w k) : NReach s.toNfa (u ++ w) k := by
+    (p : NPath s.edges n w k) : NReach s.toNfa (u ++ w) k := by
   induction p generalizing u with
   | nil n => simpa using hr
   | cons ed hmem hsrc hto _ ih =>
@@ -166,7 +166,7 @@ theorem path_nreach (s : NState) (hs : s.Closed) {u w : List Nat} {n k : Nat} (h
       simpa using this
 
 theorem nreach_iff_path (s : NState) (hs : s.Closed) (w : List Nat) (m : Nat) :
-    NReach s.toNfa w m ↔ Path s.edges 0 w m :=
+    NReach s.toNfa w m ↔ NPath s.edges 0 w m :=
   ⟨nreach_path s hs, fun p => by simpa using path_nreach s hs NReach.start p⟩
 
 /-- a prefix of a word that reaches a node reaches some node -/
@@ -181,7 +181,7 @@ theorem nreach_prefix {N : Nfa} (w : List Nat) : ∀ (v : List Nat) (m : Nat), N
     exact ih n h1
 
 /-- from a node that reaches a node without a lone ε-edge, such a node is ε-reachable along the way -/
-theorem path_nonskip (s : NState) (hs : s.Closed) {n k : Nat} {v : List Nat} (p : Path s.edges n v k)
+theorem path_nonskip (s : NState) (hs : s.Closed) {n k : Nat} {v : List Nat} (p : NPath s.edges n v k)
     (hk : ¬ IsSkip s.toNfa k) : ∃ m, EpsReach s.toNfa n m ∧ ¬ IsSkip s.toNfa m := by
   induction p with
   | nil n => exact ⟨n, .refl n, hk⟩
